@@ -96,3 +96,12 @@ def repo_fingerprint():
                 "dirty": bool(diff.strip())}
     except Exception as e:  # pragma: no cover
         return {"error": str(e)}
+
+
+def modpath(rel, mod):
+    """crate-relative module path of a harness module appended to file `rel`
+    (e.g. steel-core/src/primitives/numbers.rs + verif_num -> primitives::numbers::verif_num)."""
+    parts = rel.split("/src/", 1)[1]
+    parts = parts[:-3] if parts.endswith(".rs") else parts
+    comps = [c for c in parts.split("/") if c not in ("lib", "mod")]
+    return "::".join(comps + [mod])
